@@ -76,6 +76,17 @@ def model_entrypoints(shape, ann):
     return eps, root
 
 
+def normal_form(shape, ann, root, full):
+    """(entrypoint, argument) of a full parameter value: deepest annotated node along its Left/Right path."""
+    name, val, path, v, s = root, full, '', full, shape
+    while s != 'L' and isinstance(v, dict) and v.get('prim') in ('Left', 'Right'):
+        i = 0 if v['prim'] == 'Left' else 1
+        path, v, s = path + str(i), v['args'][0], s[i]
+        if ann.get(path):
+            name, val = ann[path], v
+    return name, val
+
+
 def wrap(v, path):
     for c in reversed(path):
         v = {'prim': 'Left' if c == '0' else 'Right', 'args': [v]}
@@ -182,6 +193,10 @@ def judge(ctx, shape, ann, leaf_types):
             continue
         if MB.nf(back) != MB.nf(V):
             ctx.violation('C13|value-roundtrip-differs|' + pc, 'V=%r via %r -> %r' % (V, d, back), vcase)
+            continue
+        nname, nval = normal_form(shape, ann, root, V)
+        if d.get('entrypoint') != nname or MB.nf(d.get('value')) != MB.nf(nval):
+            ctx.violation('C13|pair-not-in-innermost-normal-form|' + pc, 'V=%r -> %r, innermost annotated node gives (%s, %r)' % (V, d, nname, nval), vcase)
     # 3. every listed entrypoint and argument -> full value -> pair -> same full value
     for name in sorted(want_names):
         path = eps[name] if name in eps else ''
@@ -203,6 +218,13 @@ def judge(ctx, shape, ann, leaf_types):
                 again = P.from_parameters(d).to_micheline_value()
             except Exception as e:
                 ctx.violation('C13|pair-roundtrip-raises|' + pc, '%r ep=%s arg=%r' % (e, name, a), pcase)
+                continue
+            # normal form: the innermost annotated node on the way to the chosen leaf (the root if there is none)
+            nname, nval = normal_form(shape, ann, root, want_full)
+            ctx.count('normal_form_comparisons')
+            if d.get('entrypoint') != nname or MB.nf(d.get('value')) != MB.nf(nval):
+                ctx.violation('C13|pair-not-in-innermost-normal-form|' + pc,
+                              'ep=%s arg=%r -> %r, innermost annotated node gives (%s, %r)' % (name, a, d, nname, nval), pcase)
                 continue
             if MB.nf(again) != MB.nf(want_full):
                 ctx.violation('C13|pair-roundtrip-differs|' + pc, 'ep=%s arg=%r -> %r -> %r' % (name, a, d, again), pcase)
